@@ -117,6 +117,17 @@ func TestVerifC20Dtlsr(t *testing.T) {
 					}
 				}
 				k++
+				// the node first hears older link-state data of x naming as many, but other nodes; the data under test replaces it
+				// (a replacement that does not grow must bring its new nodes into the graph just the same)
+				if len(peers) > 0 {
+					decoy := map[bpv7.EndpointID]bpv7.DtnTime{}
+					for i := 0; i < len(peers); i++ {
+						decoy[vdEid(fmt.Sprintf("decoy-%s-%d", x, i))] = 0
+					}
+					if err := vdFeed(d, c, x, now-1000, decoy, idx*10+k+5); err != nil {
+						t.Fatal(err)
+					}
+				}
 				if err := vdFeed(d, c, x, now, peers, idx*10+k); err != nil {
 					t.Fatal(err)
 				}
